@@ -28,7 +28,7 @@ MANIFEST = dict(
 LEVEL = "model_checking"
 RULE = ("documents = a focus element (every constructor, including tables nested 1-2 levels below a body table as the target "
         "of every table feature; every single applicable feature token; every pair of feature tokens of the tier's pair alphabet "
-        "on the canonical constructor of each class) embedded in a context of 0-2 other elements and section settings, plus "
+        "on the canonical constructor of each class and on a nested table) embedded in a context of 0-2 other elements and section settings, plus "
         "sections carrying every set of 3 (thorough 3-7) of the header / footer kinds and the first-page switch, enumerated by "
         "TLC in BFS order, plus seeded random feature triples in the thorough tier; each is built through the public API, saved "
         "and opened three times (bytes API and file API alternate); after every step the in-memory body or the saved main part "
@@ -56,6 +56,9 @@ NESTED = ["c.ntbl.d1.2x2", "c.ntbl.d2.2x2"]
 # the section's header / footer references (multi groups of the spec: one instance per kind) and the first-page switch:
 # sets of 3 (quick) / 3..7 (thorough) of them on one section
 HF = {"s.header.default", "s.header.first", "s.header.even", "s.footer.default", "s.footer.first", "s.footer.even", "s.titlepg.on"}
+# pair alphabet on a nested table in the quick tier (content, pictures, further nesting, merges, rows / columns, formatting)
+NREPS = {"tc.data", "t.cellimage", "t.cellimage.same", "t.nested.d1", "t.merge.h", "t.merge.v", "t.cellpara", "t.celllist.bullet",
+         "t.rowheight.exact", "t.borders.partial", "t.appendrow", "t.insertcol0", "t.cellfmt.full"}
 CANON_Q = {"c.fpara", "c.tbl.2x2", "c.img.png", "sect"}
 CANON_T = {"c.fpara", "c.tbl.3x3", "c.img.png", "sect"}
 MC_DUMMY = {"Lost": set(), "LostKinds": set(), "Alias": set(), "MCCtors": set(), "MCFeats": set(), "MCSect": set(), "MCSectMax": 0}
@@ -134,12 +137,17 @@ def pipeline(ctx, replay_case=None):
     if q:
         cfg = gencfg(ctx, "gen_bfs.cfg", SingleCtors=CANON_Q | {"c.para", NESTED[ctx.seed % len(NESTED)]}, PairCtors=CANON_Q, PairFeats=REPS)
     else:
-        cfg = gencfg(ctx, "gen_bfs.cfg", SingleCtors=allc, PairCtors=CANON_T, PairFeats=set(feats), CtxMode="all")
+        cfg = gencfg(ctx, "gen_bfs.cfg", SingleCtors=allc, PairCtors=CANON_T | {NESTED[0]}, PairFeats=set(feats), CtxMode="all")
     cases = ctx.tlc_gen("RoundTrip_MC.tla", cfg, "bfs", timeout=900)
     # sections with three or more header / footer references (BFS, exhaustive over the subsets of HF of the tier's sizes)
     cfg = gencfg(ctx, "gen_hf.cfg", MinF=3, MaxF=3 if q else len(HF), PairCtors={"sect"}, PairFeats=HF, FocusKinds={"sect"},
                  PreSaves={False} if q else {False, True})
     cases += ctx.tlc_gen("RoundTrip_MC.tla", cfg, "hf", timeout=600)
+    if q:
+        # pairs of table features on a nested table (the thorough tier has every pair, see PairCtors above)
+        cfg = gencfg(ctx, "gen_nest.cfg", MinF=2, MaxF=2, PairCtors={NESTED[ctx.seed % len(NESTED)]}, PairFeats=NREPS, FocusKinds={"ctor"},
+                     PreSaves={False})
+        cases += ctx.tlc_gen("RoundTrip_MC.tla", cfg, "nest", timeout=600)
     allcases = list(cases)
     judge(ctx, cases, "bfs")
     ctx.exhaustive = True
